@@ -146,6 +146,9 @@ pub enum Ans {
     /// the poll stays unanswered; meanwhile a station between TS and the polled address has entered the ring
     /// by other means — the station learns it from a witnessed token pass of that station
     SilentAndJoinBehind,
+    /// the poll stays unanswered; the ring member that gets the token next accepts it (one transmission)
+    /// and then dies: the token is lost, the station has to claim a new one after its time-out
+    SilentAndTokenLost,
     // C15: peers of application requests
     Correct,
     Sc,
@@ -156,7 +159,7 @@ pub enum Ans {
     TokenInstead,
 }
 
-pub const C12_ANSWERS: [Ans; 6] = [Ans::Silence, Ans::NotReady, Ans::Ready, Ans::InRing, Ans::Slave, Ans::SilentAndJoinBehind];
+pub const C12_ANSWERS: [Ans; 7] = [Ans::Silence, Ans::NotReady, Ans::Ready, Ans::InRing, Ans::Slave, Ans::SilentAndJoinBehind, Ans::SilentAndTokenLost];
 pub const C15_ANSWERS: [Ans; 8] = [Ans::Correct, Ans::Silence, Ans::Sc, Ans::Late, Ans::ForeignSource, Ans::ForeignDest, Ans::RequestInstead, Ans::TokenInstead];
 
 #[derive(Clone, Debug)]
@@ -180,6 +183,9 @@ pub struct C12Mon {
     pub since_polled: Vec<u32>,
     pub expect_next_token_to: Option<u8>,
     pub last_poll_addr: Option<u8>,
+    /// the environment lost the token: the next (TS,TS) token is a claim, not a pass to itself
+    pub token_lost: bool,
+    pub last_pass_da: Option<u8>,
 }
 
 #[derive(Clone, Debug, Default)]
@@ -216,6 +222,8 @@ pub struct RState {
     pub joins: u8,
     /// a station that joined behind the sweep position: its first witnessed pass is still to come
     pub stray_next: Option<u8>,
+    /// the next pass to a ring member is accepted by it, then it dies
+    pub lose_next: bool,
     pub visits: u32,
     pub c12: C12Mon,
     pub c15: C15Mon,
@@ -255,6 +263,7 @@ impl RState {
             history: vec![],
             joins: 0,
             stray_next: None,
+            lose_next: false,
             visits: 0,
             c12: C12Mon { since_polled: vec![0; n_gap], ..Default::default() },
             c15: C15Mon { log_seen: vec![0; cfg.scripts.len()], ..Default::default() },
@@ -439,7 +448,21 @@ impl RState {
                     self.visits += 1;
                     // the environment takes the token and brings it back (a repeated pass is ignored:
                     // the chain is already queued)
-                    if self.env_queue.is_empty() {
+                    if self.env_queue.is_empty() && self.lose_next {
+                        // the member accepts the token (one GAP poll of its own to a non-TS address), then dies
+                        self.lose_next = false;
+                        let t = self.bus.us_ceil(tx.end) + self.bus.bits_us_floor(33) + 2;
+                        let hsa = self.cfg.hsa;
+                        let mut x = if *da + 1 >= hsa { 0 } else { *da + 1 };
+                        if x == ts {
+                            x = if x + 1 >= hsa { 0 } else { x + 1 };
+                        }
+                        self.env_queue.push((t, rc::encode(&rc::status_req(x, *da))));
+                        let dead = *da;
+                        self.members.retain(|m| *m != dead);
+                        self.c12.token_lost = true;
+                        ctx().witness("c12_token_lost_by_environment");
+                    } else if self.env_queue.is_empty() {
                         let mut t = self.bus.us_ceil(tx.end) + self.bus.bits_us_floor(33) + 2;
                         if let Some(n) = self.stray_next.take() {
                             // the newcomer (which got a token by other means) passes it to its successor:
@@ -503,7 +526,7 @@ impl RState {
         }
         let ans = alphabet[k];
         let ts = self.cfg.ts;
-        if matches!(ans, Ans::Ready | Ans::InRing | Ans::SilentAndJoinBehind) {
+        if matches!(ans, Ans::Ready | Ans::InRing | Ans::SilentAndJoinBehind | Ans::SilentAndTokenLost) {
             if self.joins >= self.cfg.join_budget {
                 self.pending = Some(p);
                 return false;
@@ -527,6 +550,13 @@ impl RState {
                 }
                 self.stray_next = cand;
             }
+            if ans == Ans::SilentAndTokenLost {
+                if self.members.is_empty() || !p.is_status || p.from_app || self.lose_next || self.c12.in_claim_scan {
+                    self.pending = Some(p);
+                    return false;
+                }
+                self.lose_next = true;
+            }
             self.joins += 1;
         }
         self.history.push(k as u8);
@@ -534,7 +564,7 @@ impl RState {
         let late = self.bus.us_ceil(p.req_end) + self.slot_us + 3 * self.p_us;
         let stranger = if p.addr == 100 { 101 } else { 100 };
         let reply: Option<(i64, rc::RFrame)> = match ans {
-            Ans::Silence | Ans::SilentAndJoinBehind => None,
+            Ans::Silence | Ans::SilentAndJoinBehind | Ans::SilentAndTokenLost => None,
             Ans::NotReady => Some((t11, rc::status_resp(ts, p.addr, 1))),
             Ans::Ready => Some((t11, rc::status_resp(ts, p.addr, 2))),
             Ans::InRing => Some((t11, rc::status_resp(ts, p.addr, 3))),
@@ -655,29 +685,36 @@ impl RState {
 
     fn c12_token(&mut self, da: u8) {
         let ts = self.cfg.ts;
-        if da == ts && self.c12.visits == 0 && !self.c12.in_claim_scan && self.cfg.members0.is_empty() {
+        // repeated passes to a station that does not take the token are one visit, not several
+        if da != ts && self.c12.last_pass_da == Some(da) && !self.members.contains(&da) && self.c12.expect_next_token_to != Some(da) {
+            return;
+        }
+        self.c12.last_pass_da = Some(da);
+        let first_claim = self.c12.visits == 0 && self.cfg.members0.is_empty();
+        if da == ts && !self.c12.in_claim_scan && (first_claim || self.c12.token_lost) {
             // claim (sent twice): the post-claim scan follows
+            if self.c12.token_lost {
+                ctx().witness("c12_reclaim_after_token_loss");
+            }
+            self.c12.token_lost = false;
             self.c12.in_claim_scan = true;
             self.c12.scan_polled.clear();
             self.c12.polls_this_visit = 0;
+            self.c12.last_poll_addr = None;
+            self.c12.visits_since_sweep_end = None;
+            self.c12.sweep.clear();
             return;
         }
         if self.c12.in_claim_scan {
             if da == ts && self.c12.scan_polled.is_empty() && self.c12.polls_this_visit == 0 {
                 return; // second claim token
             }
-            // first pass after the claim: the whole GAP must have been scanned
-            let hsa = self.cfg.hsa;
-            let mut expect: Vec<u8> = vec![];
-            let mut a = if ts + 1 >= hsa { 0 } else { ts + 1 };
-            // the scan ends early when a polled station became the successor
-            let stop = self.c12.expect_next_token_to;
-            while a != ts {
-                expect.push(a);
-                if Some(a) == stop {
-                    break;
-                }
-                a = if a + 1 >= hsa { 0 } else { a + 1 };
+            // first pass after the claim: the whole GAP (TS+1 .. NS-1, cyclically below HSA; everything when
+            // the station is alone) must have been scanned; the scan ends early when a polled station
+            // became the successor
+            let mut expect: Vec<u8> = self.ref_gap();
+            if let Some(x) = self.c12.expect_next_token_to {
+                expect.push(x);
             }
             if self.c12.scan_polled != expect {
                 let got = self.c12.scan_polled.clone();
